@@ -192,7 +192,8 @@ def run(ctx):
         def flat(e):
             # ensure_generator(a + b) yields a's messages, then b's: the same sequence as two yield-froms
             if isinstance(e, ast.Call) and A.call_name(e) == "ensure_generator" and len(e.args) == 1:
-                parts, stack = [], [q.expand(f.node, e.args[0])]
+                known_lists = tuple(x[len("ensure_generator("):-1] for x in before_seq)
+                parts, stack = [], [q.expand(f.node, e.args[0], keep=known_lists)]
                 while stack:
                     x = stack.pop(0)
                     if isinstance(x, ast.BinOp) and isinstance(x.op, ast.Add):
